@@ -9,3 +9,15 @@ for b in b1_rename_local:C01 b2_reorder_lets:C02 b3_min_match:C03 b4_tow_rem:C20
   git -C /repo checkout -- .
   echo "$n $p exit=$rc $( [ $rc = 1 ] && echo FALSE-ALARM )"
 done
+# second part: refactorings written by independent sub-agents (seeded/benign/agents/*.diff), each run against ALL claimed
+# properties; set AGENTS=0 to skip, ONLY="B3r1 ..." to select
+if [ "${AGENTS:-1}" = 1 ]; then
+  for f in /verif/seeded/benign/agents/*.diff; do
+    n=$(basename $f .diff)
+    [ -n "$ONLY" ] && ! echo " $ONLY " | grep -q " $n " && continue
+    git -C /repo apply $f || { echo "$n: patch does not apply"; continue; }
+    VERIF_EVIDENCE_DIR=/verif/build/seed-evidence ./check all > /tmp/benign_$n.log 2>&1; rc=$?
+    git -C /repo checkout -- .
+    echo "$n all exit=$rc $( [ $rc = 1 ] && echo FALSE-ALARM )"
+  done
+fi
